@@ -24,7 +24,7 @@ from typing import Any
 
 from detsim import corrupt, env, gen, minimize, monitors, rng
 from detsim.observe import exc_token, observe_chart
-from detsim.sched import HarnessError, Scheduler
+from detsim.sched import HarnessError, Scheduler, SimDeadlock, deadlock_result
 
 PROP = "C14"
 LEVEL = "exploration"
@@ -269,6 +269,10 @@ def execute(plan: dict[str, Any]) -> dict[str, Any]:
 
     try:
         sched.run([body_for(i) for i in range(n_clients)])
+    except SimDeadlock as e:
+        # threads / locks the library made itself, all of them scheduled by the simulator:
+        # under this schedule a call never returns (its reference does)
+        return deadlock_result(PROP, e, sched)
     except HarnessError as e:
         harness_error = str(e)
     finally:
